@@ -191,15 +191,18 @@ func (c *Check) residualFlag() {
 			}
 		}
 	}
-	for _, b := range f.Blocks {
+	// the per-sample walk may live in newGraph or in a helper/method it calls
+	body := f
+	for _, b := range helperBlocks(f, 2) {
 		for _, ins := range b.Instrs {
 			if call, ok := ins.(*ssa.Call); ok && call.Call.StaticCallee() != nil && call.Call.StaticCallee().Name() == "AddToEdgeDiv" && len(call.Call.Args) >= 5 {
 				grow(call.Call.Args[4])
+				body = b.Parent()
 			}
 		}
 	}
 	n := 0
-	for _, b := range f.Blocks {
+	for _, b := range body.Blocks {
 		for _, ins := range b.Instrs {
 			phi, ok := ins.(*ssa.Phi)
 			if !ok || !flag[phi] {
@@ -439,7 +442,7 @@ func (c *Check) edgeSymmetry() {
 				continue
 			}
 			// exception: the node being removed by TrimTree (the range element that is not kept)
-			if f.Name() == "TrimTree" && a.kind == "delete" && (isRangeElemOfNodes(a.key) || isRangeElemOfNodes(a.owner)) {
+			if a.kind == "delete" && (removedByTrimTree(p, f, a.key, 0) || removedByTrimTree(p, f, a.owner, 0)) {
 				c.ok("C05-R4", key, p.relFile(a.pos), fmt.Sprintf("unpaired delete on %s in TrimTree", a.field), "the other end is the node being removed from the graph (range element of the old node list that is not kept); its own maps are discarded with it")
 				continue
 			}
@@ -496,6 +499,35 @@ func nodeDesc(v ssa.Value) string {
 		}
 	}
 	return describeValue(v)
+}
+
+// removedByTrimTree: v is the node TrimTree is removing: the element of the old node list its
+// loop is looking at, directly in TrimTree or handed as an argument to a helper that only
+// TrimTree calls.
+func removedByTrimTree(p *Program, f *ssa.Function, v ssa.Value, depth int) bool {
+	if f.Name() == "TrimTree" {
+		return isRangeElemOfNodes(v)
+	}
+	par, ok := v.(*ssa.Parameter)
+	if !ok || depth > 2 {
+		return false
+	}
+	idx := -1
+	for i, q := range f.Params {
+		if q == par {
+			idx = i
+		}
+	}
+	calls, asValue := directCallSites(p, f)
+	if idx < 0 || asValue || len(calls) == 0 {
+		return false
+	}
+	for _, call := range calls {
+		if idx >= len(call.Common().Args) || !removedByTrimTree(p, call.Parent(), call.Common().Args[idx], depth+1) {
+			return false
+		}
+	}
+	return true
 }
 
 func isRangeElemOfNodes(v ssa.Value) bool {
